@@ -48,6 +48,10 @@ func atomMatches(a Atom, i, o Obj) bool {
 			}
 		}
 		return false
+	case "nokeys":
+		return false
+	case "nilkeys":
+		return true
 	case "keys":
 		return o.ResourceName() == i.Ref || o.ResourceName() == i.NS+"/x"
 	case "objName":
@@ -122,6 +126,33 @@ func (c *caseRun) effSrc() func(n int) map[string]Obj {
 			return m
 		case c.secmode == "s2" && n%2 == 1:
 			return c.sec2M
+		case c.secmode == "sm" || c.secmode == "sn":
+			m := map[string]Obj{}
+			for k := range c.secM {
+				m[k] = Obj{}
+			}
+			for k := range c.sec2M {
+				m[k] = Obj{}
+			}
+			for k := range m {
+				var ts []Obj
+				if o, f := c.secM[k]; f {
+					ts = append(ts, o)
+				}
+				if o, f := c.sec2M[k]; f {
+					ts = append(ts, o)
+				}
+				m[k] = *mergeSortedSpec(ts)
+			}
+			return m
+		case c.secmode == "sp" || c.secmode == "ss":
+			m := map[string]Obj{}
+			for k, o := range c.d.prim {
+				if !(c.single1 && k == singletonInput.ResourceName()) {
+					m[k] = o
+				}
+			}
+			return m
 		}
 		return c.secM
 	}
@@ -238,6 +269,7 @@ func oracleCase(t *testing.T, lines [][]string) string {
 		tr1.chainSuffix = false
 		base := map[string]map[string]string{}
 		pbase := map[string]map[string]string{}
+		pfrozen := map[string]map[string]string{}
 		dbase := map[string]map[string]string{}
 		primVals := func() map[string]string {
 			m := map[string]string{}
@@ -277,8 +309,20 @@ func oracleCase(t *testing.T, lines [][]string) string {
 					pbase[l[1]] = map[string]string{}
 				}
 			}
+			if l[0] == "punsub" && len(l) == 2 {
+				pfrozen[l[1]] = primVals()
+			}
 			if l[0] == "pstream" {
 				toks := strings.Fields(trace)
+				if ps := c.psubs[toks[1]]; ps != nil && ps.unreg {
+					// unregistered: it must hold exactly what it held then (the harness counts later events itself)
+					if frozen, ok := pfrozen[toks[1]]; ok {
+						if r := goMonitor(pbase[toks[1]], toks[2:], frozen, all); r != "" {
+							fail("pstream", fmt.Sprintf("op%d:unregistered:%s", n+1, r))
+						}
+					}
+					continue
+				}
 				if b, ok := pbase[toks[1]]; ok && len(toks) >= 2 {
 					if r := goMonitor(b, toks[2:], primVals(), all); r != "" {
 						fail("pstream", fmt.Sprintf("op%d:%s", n+1, r))
